@@ -1,269 +1,389 @@
-"""C18 - dataset split, batching and one-hot encoding lose or misalign no sample (index bookkeeping of nn/utils/data.py)."""
-import ast
-from sa.core import norm, body_walk, dotted, names_in
+"""C18 - dataset split, batching and one-hot encoding lose or misalign no sample (index bookkeeping of nn/utils/data.py).
+
+Every routine is partially evaluated (sa/peval.py) over symbolic sequences: Seq = an index list known only as a tree of complementary slices of
+range(n); Gather = [src[i] for i in seq]; Sub = src[slice].  What is compared are those structures and the size terms, not the spelling."""
+import ast, itertools
+from sa.core import norm, body_walk, dotted
 from sa.cfg import CFG, facts_at
-from sa.poly import P, floor, TermBuilder, Unsupported
+from sa.poly import P, floor, as_p
+from sa.peval import PE, Opaque
 from sa.report import Incomplete
 
 DMOD = 'synapgrad.nn.utils.data'
+A = P.atom
 
 
-def _term(e, env=None, atoms=None):
-    def atom_of(x):
-        t = norm(x)
-        if atoms and t in atoms:
-            return P.atom(atoms[t])
-        if isinstance(x, ast.Call) and dotted(x.func) == 'len':
-            return P.atom('len(%s)' % norm(x.args[0]))
-        if isinstance(x, (ast.Attribute, ast.Subscript)):
-            return P.atom(t)
-        return None
-    return TermBuilder(env or {}, atom_of).build(e)
+class Seq:
+    """index list: the root is list(range(n)); a child is parent[k:] ('from') or parent[:k] ('upto')"""
+    def __init__(self, parent, kind=None, k=None, n=None):
+        self.parent, self.kind, self.k, self.n = parent, kind, k, n
+        if parent is None:
+            self.text, self.length = 'range(%s)' % as_p(n).canon(), as_p(n)
+        else:
+            kk = as_p(k)
+            self.text = '%s[%s]' % (parent.text, ('%s:' if kind == 'from' else ':%s') % kk.canon())
+            self.length = (parent.length - kk) if kind == 'from' else kk          # for 0 <= k <= len(parent)
+        self.loc_text = self.text
+        self.shuffled = 0
+
+    def root(self):
+        return self if self.parent is None else self.parent.root()
+
+    def __eq__(self, o):
+        return isinstance(o, Seq) and self.text == o.text
+
+    def __hash__(self):
+        return hash(self.text)
+
+    def __repr__(self):
+        return 'Seq(%s)' % self.text
+
+
+class Gather:
+    def __init__(self, src, seq):
+        self.src, self.seq = src, seq
+        self.text = self.loc_text = '[%s[i] for i in %s]' % (src, seq.text)
+        self.length = seq.length
+
+    def __eq__(self, o):
+        return isinstance(o, Gather) and (self.src, self.seq) == (o.src, o.seq)
+
+    def __hash__(self):
+        return hash(self.text)
+
+    def __repr__(self):
+        return 'Gather(%s, %s)' % (self.src, self.seq.text)
+
+
+class Sub:
+    def __init__(self, src, idx):
+        self.src, self.idx = src, idx
+        self.text = self.loc_text = '%s[..]' % src
+
+    def __repr__(self):
+        return 'Sub(%s, %s)' % (self.src, _show(self.idx))
+
+
+def _show(v):
+    if isinstance(v, P):
+        return v.canon()
+    if isinstance(v, (list, tuple)):
+        return '(' + ', '.join(_show(x) for x in v) + ')'
+    return repr(v)
+
+
+def _atomname(v):
+    if isinstance(v, P) and len(v.t) == 1:
+        (m, c), = v.t.items()
+        if c == 1 and len(m) == 1 and m[0][1] == 1:
+            return m[0][0]
+    return None
 
 
 def check(model, R, tier):
-    R.rule('C18.PARTITION', 'each split is a complementary pair of slices xs[k:] / xs[:k] of one index list with k = floor(fraction * len(xs)); shuffle acts once on that list before the first slice, under `if shuffle`', floor=5)
-    R.rule('C18.PAIRING', 'X and y of every part are gathered through the same index list in the same order, and the returned tuples pair like with like', floor=4)
-    R.rule('C18.BATCH', 'len = len(y) // batch_size; X and y are sliced with equal bounds idx*b : idx*b + b; iteration stops at len, advances by one, and restarts from 0', floor=5)
-    R.rule('C18.OPTIONAL-CALL', 'an attribute whose constructor default is None is called only under a presence test; without it the batch is returned unchanged', floor=1)
-    R.rule('C18.ONEHOT', 'one_hot_encode puts the 1 at the index of the label among the sorted distinct labels; row length = number of distinct labels', floor=3)
-    sd = model.func(DMOD + '.split_dataset')
-    gi = model.funcs.get(DMOD + '.split_dataset.get_split_indices')
-    if gi is None:
-        R.incomplete_at('C18.PARTITION', sd.qualname, 'index helper get_split_indices not found')
-    else:
-        check_partition(model, R, gi, sd)
-    check_pairing(model, R, sd)
-    check_loader(model, R)
-    check_onehot(model, R)
+    R.rule('C18.PARTITION', 'the returned index parts are the leaves of a tree of complementary slices xs[k:] / xs[:k] of list(range(len(X))) (every index in exactly one part, order preserved); '
+                            'test has floor(test_split*n) elements, validation floor(val_split*(n - test)); shuffle acts exactly once, on the whole list, before the first slice, only when requested', floor=6)
+    R.rule('C18.PAIRING', 'X and y of every part are gathered through the same index list in the same order, and the returned tuples pair like with like in the order train, test, validation', floor=4)
+    R.rule('C18.BATCH', 'len = len(y) // batch_size; X and y are sliced with equal bounds idx*b : idx*b + b; __next__ yields batch number step, advances step by one, stops at len; __iter__ restarts from 0', floor=5)
+    R.rule('C18.OPTIONAL-CALL', 'the optional transform (constructor default None) is called only when present, with the sliced batch; without it the batch is returned unchanged', floor=2)
+    R.rule('C18.ONEHOT', 'one_hot_encode puts the 1 at the index of the label among the sorted distinct labels; row length = number of distinct labels; rows in the order of y', floor=3)
+    try:
+        check_split(model, R)
+    except Incomplete as u:
+        R.incomplete_at('C18.PARTITION', DMOD + '.split_dataset', str(u))
+    try:
+        check_loader(model, R)
+    except Incomplete as u:
+        R.incomplete_at('C18.BATCH', DMOD + '.DataLoader', str(u))
+    try:
+        check_onehot(model, R)
+    except Incomplete as u:
+        R.incomplete_at('C18.ONEHOT', DMOD + '.one_hot_encode', str(u))
     return dict(
-        explanation='nn/utils/data.py is 95 lines of index bookkeeping never imported by the suite. Decides: complementary slice pairs with floor-rule sizes (every index in exactly one part, order preserved), '
-                    'single guarded shuffle before slicing, X/y gathered through the same index list, aligned batch slices with polynomially equal bounds, iterator protocol of DataLoader, '
-                    'None-guard of the optional transform, and the one-hot index rule.',
-        assumptions=['Python slice semantics: xs[k:] and xs[:k] partition xs for any integer k', 'np.unique returns the sorted distinct labels'],
-        technique='def-use pattern rules + polynomial normal form for slice bounds / sizes + control-dependence facts')
+        explanation='nn/utils/data.py is index bookkeeping never imported by the suite. Decided by partial evaluation over symbolic sequences: the returned parts tile range(len(X)) through complementary slice pairs with the '
+                    'documented floor sizes (with and without a validation split), a single guarded shuffle before slicing, X / y gathered through the same index list and returned in the order train, test, validation; '
+                    'DataLoader length, aligned batch slices, iterator protocol (yield batch step, advance by one, stop at len, restart from 0), presence test of the optional transform; the one-hot index rule on a '
+                    'representative label alphabet of three symbolic classes.',
+        assumptions=['Python slice semantics: xs[k:] and xs[:k] partition xs for any integer k', 'np.unique returns the sorted distinct labels', 'one_hot_encode is uniform in the number of classes (evaluated for three symbolic classes)'],
+        technique='partial evaluation with path enumeration over symbolic index sequences (slice trees, gathers) + polynomial normal form of sizes and bounds')
 
 
-def _complementary(R, f, stmt, rule):
-    """a, b = xs[k:], xs[:k]"""
-    t, v = stmt.targets[0], stmt.value
-    ok = isinstance(t, ast.Tuple) and isinstance(v, ast.Tuple) and len(t.elts) == 2 and len(v.elts) == 2 and all(isinstance(e, ast.Subscript) and isinstance(e.slice, ast.Slice) for e in v.elts)
-    info = None
-    if ok:
-        a, b = v.elts
-        same_list = norm(a.value) == norm(b.value)
-        sa_, sb = a.slice, b.slice
-        upper = lower = None
-        for s in (sa_, sb):
-            if s.step is not None:
-                ok = False
-        if ok:
-            if sa_.lower is not None and sa_.upper is None and sb.lower is None and sb.upper is not None:
-                lower, upper, rest_name, head_name = sa_.lower, sb.upper, norm(t.elts[0]), norm(t.elts[1])
-            elif sb.lower is not None and sb.upper is None and sa_.lower is None and sa_.upper is not None:
-                lower, upper, rest_name, head_name = sb.lower, sa_.upper, norm(t.elts[1]), norm(t.elts[0])
-            else:
-                ok = False
-        if ok:
-            ok = same_list and norm(lower) == norm(upper)
-            info = dict(list=norm(a.value), k=lower, rest=rest_name, head=head_name)
-    R.ob(rule, f.qualname, norm(stmt), ok, 'the two parts must be xs[k:] and xs[:k] of the SAME list with the SAME k (an index must land in exactly one part, order preserved)', '%s:%d' % (f.mod.relpath, stmt.lineno))
-    return info if ok else None
+# ------------------------------------------------------------------------------------------------ split_dataset
+def _split_hooks(events):
+    def call_hook(pe, name, e, args, kw, env, func, depth):
+        n = name or ''
+        if n in ('range', 'builtins.range') and len(args) == 1 and isinstance(args[0], P):
+            return Seq(None, n=args[0])
+        if n.endswith('random.shuffle') and args:
+            events.append(('shuffle', args[0]))
+            return None
+        if n in ('numpy.random.permutation',) and args:
+            events.append(('shuffle', args[0]))
+            return args[0]
+        return NotImplemented
+
+    def sub_hook(pe, e, base, idx):
+        if isinstance(base, Seq):
+            if isinstance(idx, tuple) and idx and idx[0] == 'slice' and idx[3] is None:
+                lo, hi = idx[1], idx[2]
+                if lo is not None and hi is None:
+                    r = Seq(base, 'from', lo)
+                elif lo is None and hi is not None:
+                    r = Seq(base, 'upto', hi)
+                elif lo is None and hi is None:
+                    return base
+                else:
+                    raise Incomplete('two-sided slice of an index list: %s' % norm(e))
+                events.append(('slice', r))
+                return r
+            raise Incomplete('index list subscripted with %s' % norm(e))
+        nm = _atomname(base)
+        if nm is not None:
+            return Sub(nm, idx)
+        return NotImplemented
+
+    def comp_hook(pe, e, it, env, func, depth):
+        if isinstance(it, Seq) and len(e.generators) == 1 and not e.generators[0].ifs:
+            env2 = dict(env)
+            el = A('elem_i')
+            pe.assign(e.generators[0].target, el, env2, func, depth, e)
+            v = pe.expr(e.elt, env2, func, depth)
+            if isinstance(v, Sub) and isinstance(v.idx, P) and v.idx == el:
+                return Gather(v.src, it)
+            raise Incomplete('comprehension over an index list does not gather src[i]: %s' % norm(e))
+        return NotImplemented
+    return call_hook, sub_hook, comp_hook
 
 
-def check_partition(model, R, gi, sd):
-    cfg = CFG(gi.node)
-    splits = [n for n in body_walk(gi.node) if isinstance(n, ast.Assign) and isinstance(n.targets[0], ast.Tuple) and isinstance(n.value, ast.Tuple)
-              and all(isinstance(e, ast.Subscript) for e in n.value.elts)]
-    splits.sort(key=lambda n: n.lineno)
-    if len(splits) != 2:
-        R.incomplete_at('C18.PARTITION', gi.qualname, 'expected two slice-pair statements, found %d' % len(splits))
-        return
-    infos = [_complementary(R, gi, s, 'C18.PARTITION') for s in splits]
-    if not all(infos):
-        return
-    first, second = infos
-    # second split acts on the rest of the first
-    R.ob('C18.PARTITION', gi.qualname, 'second split acts on %s' % second['list'], second['list'] == first['rest'], 'validation must be taken from the non-test remainder', gi.loc)
-    # k = floor(fraction * len(list))
-    assigns = sorted([n for n in body_walk(gi.node) if isinstance(n, ast.Assign) and isinstance(n.targets[0], ast.Name)], key=lambda n: n.lineno)
-    def k_def(name, before):
-        ds = [n for n in assigns if n.targets[0].id == name and n.lineno < before]
-        return ds[-1] if ds else None
-    idx_def = [n for n in assigns if n.targets[0].id == first['list']]
-    n_atom = None
-    if idx_def and norm(idx_def[0].value).startswith('list(range('):
-        n_atom = norm(idx_def[0].value.args[0].args[0])
-    R.ob('C18.PARTITION', gi.qualname, '%s = %s' % (first['list'], norm(idx_def[0].value) if idx_def else None), n_atom is not None, 'the index list must enumerate all samples 0..n-1 in order', gi.loc)
-    for info, st, frac_param, length in ((first, splits[0], gi.pos_params[1], n_atom), (second, splits[1], gi.pos_params[2], 'len(%s)' % first['rest'])):
-        kd = k_def(norm(info['k']), st.lineno) if isinstance(info['k'], ast.Name) else None
-        ok = False
-        got = None
-        if kd is not None and length is not None:
-            try:
-                got = _term(kd.value)
-                want = floor(P.atom(frac_param) * P.atom(length))
-                ok = got == want
-            except Unsupported as u:
-                got = u
-        R.ob('C18.PARTITION', gi.qualname, '%s = %s' % (norm(info['k']), got.canon() if isinstance(got, P) else got), ok,
-             'the split point must be floor(%s * %s)' % (frac_param, length), '%s:%d' % (gi.mod.relpath, st.lineno))
-    # shuffle: once, on the index list, before the first slice, under `if shuffle`
-    sh = [n for n in body_walk(gi.node) if isinstance(n, ast.Expr) and isinstance(n.value, ast.Call) and 'shuffle' in norm(n.value.func)]
-    ok = len(sh) == 1
-    if ok:
-        fs = {(t, p) for t, p, _ in facts_at(cfg, sh[0])}
-        ok = norm(sh[0].value.args[0]) == first['list'] and fs == {('shuffle', True)} and sh[0].lineno < splits[0].lineno and not cfg.in_loop(sh[0])
-    R.ob('C18.PARTITION', gi.qualname, 'shuffle: %s' % [norm(s) for s in sh], ok, 'shuffling must permute the index list exactly once before slicing and only when requested (original order is preserved otherwise)', gi.loc)
-    # returned order and call
-    rets = [n for n in body_walk(gi.node) if isinstance(n, ast.Return)]
-    R.ob('C18.PARTITION', gi.qualname, norm(rets[0]) if rets else 'no return', len(rets) == 1 and [norm(e) for e in rets[0].value.elts] == [second['rest'], first['head'], second['head']] if rets and isinstance(rets[0].value, ast.Tuple) else False,
-         'the helper must return (train, test, validation) index lists', gi.loc)
+def check_split(model, R):
+    sd = model.func(DMOD + '.split_dataset')
+    Xn, yn = sd.pos_params[0], sd.pos_params[1]
+    n = A('len(%s)' % Xn)
+    ts, vs = A('test_split'), A('val_split')
+    from sa import poly
+    poly.NONINTEGRAL.update({'test_split', 'val_split'})        # ratios: floor(ratio * n) must not be simplified away
+    k1 = floor(ts * n)
+    for has_val, shuffle in itertools.product((True, False), repeat=2):
+        events = []
+        ch, sh, cm = _split_hooks(events)
+        args = {'test_split': ts, 'val_split': vs if has_val else None, 'shuffle': A('shuffle')}
+        pe = PE(model, preds={'shuffle': shuffle}, call_hook=ch, sub_hook=sh, comp_hook=cm, atoms_not_none=True)
+        outs = pe.paths(sd, args)
+        tag = 'val_split %s, shuffle=%s' % ('given' if has_val else 'None', shuffle)
+        if len(outs) != 1 or outs[0].kind != 'return' or not isinstance(outs[0].value, (tuple, list)) or len(outs[0].value) != 3:
+            R.ob('C18.PARTITION', sd.qualname, '[%s] one returning path with (train, test, validation)' % tag, False, 'paths: %s' % [(o.kind, o.conds[-2:]) for o in outs][:3], sd.loc)
+            continue
+        train, test, val = outs[0].value
+        parts = [('train', train), ('test', test)] + ([('validation', val)] if has_val else [])
+        # PAIRING
+        okp = all(isinstance(p, (tuple, list)) and len(p) == 2 and isinstance(p[0], Gather) and isinstance(p[1], Gather) and p[0].src == Xn and p[1].src == yn and p[0].seq == p[1].seq for _, p in parts) \
+            and (has_val or val is None)
+        R.ob('C18.PAIRING', sd.qualname, '[%s] returns %s' % (tag, _show_parts(outs[0].value)), okp,
+             'each returned part must be (X gathered through s, y gathered through the same s), validation None without a validation split', sd.loc)
+        if not okp:
+            continue
+        seqs = {nm: p[0].seq for nm, p in parts}
+        # PARTITION: leaves tile the root
+        root = seqs['train'].root()
+        leaves = list(seqs.values())
+        ok_root = root.parent is None and all(s.root() == root for s in leaves) and root.length == n
+        tiles = _tile(root, leaves)
+        R.ob('C18.PARTITION', sd.qualname, '[%s] parts %s' % (tag, {k: v.text for k, v in seqs.items()}), ok_root and tiles and len({s.text for s in leaves}) == len(leaves),
+             'the parts must be the leaves of complementary slice pairs xs[k:] / xs[:k] of list(range(len(X))): every sample index in exactly one part, original order preserved', sd.loc)
+        # sizes
+        want_test = k1
+        ok_sz = seqs['test'].length == want_test
+        why = 'test has %s elements, documented floor(test_split * n) = %s' % (seqs['test'].length.canon(), want_test.canon())
+        if has_val:
+            want_val = floor(vs * (n - k1))
+            ok_sz = ok_sz and seqs['validation'].length == want_val
+            why += '; validation has %s, documented floor(val_split * (n - test)) = %s' % (seqs['validation'].length.canon(), want_val.canon())
+        R.ob('C18.PARTITION', sd.qualname, '[%s] sizes test=%s%s' % (tag, seqs['test'].length.canon(), ', validation=%s' % seqs['validation'].length.canon() if has_val else ''), ok_sz, why, sd.loc)
+        # shuffle: once, on the root, before any slice, iff requested
+        shs = [(i, ev) for i, ev in enumerate(events) if ev[0] == 'shuffle']
+        first_slice = min([i for i, ev in enumerate(events) if ev[0] == 'slice'] or [len(events)])
+        ok_sh = (len(shs) == 1 and isinstance(shs[0][1][1], Seq) and shs[0][1][1] == root and shs[0][0] < first_slice) if shuffle else not shs
+        R.ob('C18.PARTITION', sd.qualname, '[%s] shuffles: %s' % (tag, [repr(ev[1]) for _, ev in shs]), ok_sh,
+             'shuffling must permute the whole index list exactly once before slicing, and only when requested (the original order is preserved otherwise)', sd.loc)
 
 
-def check_pairing(model, R, sd):
-    calls = [n for n in body_walk(sd.node) if isinstance(n, ast.Assign) and isinstance(n.value, ast.Call) and dotted(n.value.func) == 'get_split_indices']
-    names = None
-    if len(calls) == 1 and isinstance(calls[0].targets[0], ast.Tuple):
-        names = [norm(e) for e in calls[0].targets[0].elts]
-        args = [norm(a) for a in calls[0].value.args]
-        R.ob('C18.PAIRING', sd.qualname, norm(calls[0]), args == ['len(%s)' % sd.pos_params[0], sd.pos_params[2], sd.pos_params[3]], 'the index helper must be given len(X) and the two fractions', sd.loc)
-    else:
-        R.incomplete_at('C18.PAIRING', sd.qualname, 'call of get_split_indices not found')
-        return
-    X, y = sd.pos_params[0], sd.pos_params[1]
-    gathered = {}
-    for n in body_walk(sd.node):
-        if isinstance(n, ast.Assign) and isinstance(n.targets[0], ast.Name) and isinstance(n.value, ast.Call) and n.value.args and isinstance(n.value.args[0], ast.ListComp):
-            lc = n.value.args[0]
-            g = lc.generators[0]
-            if isinstance(lc.elt, ast.Subscript) and norm(lc.elt.slice) == norm(g.target) and not g.ifs:
-                gathered[n.targets[0].id] = (norm(lc.elt.value), norm(g.iter), n)
-    parts = {}
-    for nm, (src, idx, n) in gathered.items():
-        parts.setdefault(idx, {})[src] = nm
-    for idx in names:
-        p = parts.get(idx, {})
-        ok = set(p) == {X, y}
-        R.ob('C18.PAIRING', sd.qualname, 'part %s: %s' % (idx, p), ok, 'features and labels of a part must both be gathered through %s (same indices, same order)' % idx, sd.loc)
-    tuples = {n.targets[0].id: [norm(e) for e in n.value.elts] for n in body_walk(sd.node) if isinstance(n, ast.Assign) and isinstance(n.targets[0], ast.Name) and isinstance(n.value, ast.Tuple)}
-    okt = True
-    for tname, elts in tuples.items():
-        srcs = [gathered.get(e, (None, None))[:2] for e in elts]
-        if len(srcs) != 2 or srcs[0][0] != X or srcs[1][0] != y or srcs[0][1] != srcs[1][1]:
-            okt = False
-    rets = [n for n in body_walk(sd.node) if isinstance(n, ast.Return)]
-    order = []
-    if rets and isinstance(rets[0].value, ast.Tuple):
-        for e in rets[0].value.elts:
-            el = tuples.get(norm(e))
-            order.append(gathered.get(el[0], (None, None))[1] if el else None)
-    R.ob('C18.PAIRING', sd.qualname, 'returned (train, test, validation) built from %s' % order, okt and order == names, 'each returned tuple must be (X_part, y_part) of the same part, in the order train, test, validation', sd.loc)
+def _show_parts(v):
+    def one(p):
+        if isinstance(p, (tuple, list)):
+            return '(' + ', '.join(one(x) for x in p) + ')'
+        return repr(p)
+    return one(v)[:260]
 
 
+def _tile(node, leaves):
+    """the leaves below `node` are exactly a complementary-slice tiling of it"""
+    if any(l == node for l in leaves):
+        return True
+    below = [l for l in leaves if _is_below(l, node)]
+    kids = {}
+    for l in below:
+        c = l
+        while c.parent is not None and not (c.parent == node):
+            c = c.parent
+        if c.parent is None:
+            return False
+        kids.setdefault(as_p(c.k).canon(), {})[c.kind] = c
+    if len(kids) != 1:
+        return False
+    (k, pair), = kids.items()
+    if set(pair) != {'from', 'upto'}:
+        return False
+    return _tile(pair['from'], leaves) and _tile(pair['upto'], leaves)
+
+
+def _is_below(l, node):
+    c = l
+    while c is not None:
+        if c == node:
+            return True
+        c = c.parent
+    return False
+
+
+# ------------------------------------------------------------------------------------------------ DataLoader
 def check_loader(model, R):
     c = model.cls(DMOD + '.DataLoader')
     init = c.methods['__init__']
-    bs = None
-    for n in body_walk(init.node):
-        if isinstance(n, ast.Assign) and norm(n.value) == 'batch_size' and isinstance(n.targets[0], ast.Attribute):
-            bs = norm(n.targets[0])
-    if bs is None:
-        R.incomplete_at('C18.BATCH', c.qualname, 'batch size attribute not found')
-        return
+    outs = PE(model).paths(init, {p_: A(p_) for p_ in init.pos_params[1:]})
+    st = {}
+    for o in outs:
+        for key, v, node in o.stores:
+            st.setdefault(key, []).append(v)
+    bs = [k for k, vs in st.items() if all(isinstance(v, P) and v == A('batch_size') for v in vs)]
+    xs = [k for k, vs in st.items() if all(isinstance(v, P) and v == A('X') for v in vs)]
+    ys = [k for k, vs in st.items() if all(isinstance(v, P) and v == A('y') for v in vs)]
+    tr = [k for k, vs in st.items() if all(isinstance(v, P) and v == A('transform') for v in vs)]
+    if len(bs) != 1 or len(xs) != 1 or len(ys) != 1 or len(tr) != 1 or len(outs) != 1:
+        raise Incomplete('constructor does not store X, y, batch_size and transform once each: %s' % sorted(st))
+    bs, xs, ys, tr = bs[0], xs[0], ys[0], tr[0]
+    cur = [k for k, vs in st.items() if all(v == 0 and not isinstance(v, bool) for v in vs) and k not in (bs, xs, ys, tr)]
+    B = A(bs)
+    LEN = floor(A('len(%s)' % ys) / B)
     ln = c.methods['__len__']
-    rets = [n for n in body_walk(ln.node) if isinstance(n, ast.Return)]
-    ok = False
-    try:
-        ok = len(rets) == 1 and _term(rets[0].value) == floor(P.atom('len(self.y)') / P.atom(bs))
-    except Unsupported:
-        pass
-    R.ob('C18.BATCH', ln.qualname, norm(rets[0]) if rets else 'no return', ok, 'the number of batches is floor(n / batch_size) (only full batches)', ln.loc)
+    lo = PE(model).paths(ln, {})
+    ok = len(lo) == 1 and lo[0].kind == 'return' and isinstance(lo[0].value, P) and lo[0].value == LEN
+    R.ob('C18.BATCH', ln.qualname, 'returns %s' % [_show(o.value) for o in lo], ok, 'the number of batches is floor(len(y) / batch_size) (only full batches): %s' % LEN.canon(), ln.loc)
+    # __getitem__
     gi = c.methods['__getitem__']
-    idx = gi.pos_params[1]
-    env = {}
-    for n in sorted([x for x in body_walk(gi.node) if isinstance(x, ast.Assign) and isinstance(x.targets[0], ast.Name)], key=lambda x: x.lineno):
-        try:
-            env[n.targets[0].id] = _term(n.value, env)
-        except Unsupported:
-            pass
-    slices = {}
-    for n in ast.walk(gi.node):
-        if isinstance(n, ast.Subscript) and norm(n.value) in ('self.X', 'self.y') and isinstance(n.slice, ast.Slice):
-            try:
-                slices[norm(n.value)] = (_term(n.slice.lower, env) if n.slice.lower is not None else P.const(0), _term(n.slice.upper, env) if n.slice.upper is not None else None, n.slice.step)
-            except Unsupported as u:
-                slices[norm(n.value)] = ('?', str(u), None)
-    b, i = P.atom(bs), P.atom(idx)
-    ok = set(slices) == {'self.X', 'self.y'} and slices['self.X'][:2] == slices['self.y'][:2] and slices['self.X'][0] == i * b and slices['self.X'][1] == i * b + b and slices['self.X'][2] is None and slices['self.y'][2] is None
-    R.ob('C18.BATCH', gi.qualname, 'slices %s' % {k: (v[0].canon() if isinstance(v[0], P) else v[0], v[1].canon() if isinstance(v[1], P) else v[1]) for k, v in slices.items()}, ok,
-         'X and y must be sliced with the same bounds idx*batch_size : idx*batch_size + batch_size', gi.loc)
+    idxp = gi.pos_params[1]
+    I = A(idxp)
+
+    def sub_hook(pe, e, base, idx):
+        nm = _atomname(base)
+        if nm in (xs, ys):
+            return Sub(nm, idx)
+        return NotImplemented
+    want = ('slice', I * B, I * B + B, None)
+
+    def slice_ok(ix, i=I):
+        return isinstance(ix, tuple) and len(ix) == 4 and ix[0] == 'slice' and ix[3] is None and isinstance(ix[1], (P, int)) and isinstance(ix[2], (P, int)) and as_p(ix[1]) == i * B and as_p(ix[2]) == i * B + B
+    o0 = PE(model, atoms={tr: None}, sub_hook=sub_hook, atoms_not_none=True).paths(gi, {})
+    ok = len(o0) == 1 and o0[0].kind == 'return' and isinstance(o0[0].value, (tuple, list)) and len(o0[0].value) == 2 and all(isinstance(v, Sub) for v in o0[0].value) \
+        and [v.src for v in o0[0].value] == [xs, ys] and all(slice_ok(v.idx) for v in o0[0].value) and not [c_ for c_ in o0[0].calls if c_[0] == tr]
+    R.ob('C18.BATCH', gi.qualname, 'batch idx = %s' % [_show_parts(o.value) for o in o0], ok, 'X and y must be sliced with the same bounds idx*batch_size : idx*batch_size + batch_size and returned as (X_batch, y_batch)', gi.loc)
+    R.ob('C18.OPTIONAL-CALL', gi.qualname, 'transform None: returns %s, calls %s' % ([_show_parts(o.value) for o in o0], [c_[0] for o in o0 for c_ in o.calls if c_[0] == tr]), ok,
+         'without a transform the sliced batch must be returned unchanged and the absent transform must not be called (TypeError for the default constructor)', gi.loc)
+    o1 = PE(model, sub_hook=sub_hook, atoms_not_none=True).paths(gi, {})
+    calls = [c_ for o in o1 for c_ in o.calls if c_[0] == tr]
+    ok = len(o1) == 1 and o1[0].kind == 'return' and len(calls) == 1 and len(calls[0][1]) == 3 and isinstance(calls[0][1][1], Sub) and isinstance(calls[0][1][2], Sub) \
+        and (calls[0][1][1].src, calls[0][1][2].src) == (xs, ys) and slice_ok(calls[0][1][1].idx) and slice_ok(calls[0][1][2].idx) and _atomname(calls[0][1][0]) == gi.pos_params[0] \
+        and isinstance(o1[0].value, Opaque)
+    R.ob('C18.OPTIONAL-CALL', gi.qualname, 'transform present: %s' % [(c_[0], _show_parts(c_[1])) for c_ in calls], ok, 'a present transform receives (loader, X_batch, y_batch) of the same aligned slices and its result is returned', gi.loc)
+    # __next__
     nx = c.methods['__next__']
-    cfg = CFG(nx.node)
-    conds = [n for n in body_walk(nx.node) if isinstance(n, ast.If)]
-    ok = False
-    if len(conds) == 1:
-        t = norm(conds[0].test)
-        ok = t in ('self.step < self.__len__()', 'self.step < len(self)')
-        body = conds[0].body
-        fetch = [n for n in body if isinstance(n, ast.Assign) and isinstance(n.value, ast.Call) and norm(n.value) in ('self.__getitem__(self.step)', 'self[self.step]')]
-        inc = [n for n in body if isinstance(n, ast.AugAssign) and norm(n.target) == 'self.step' and isinstance(n.op, ast.Add) and norm(n.value) == '1']
-        ret = [n for n in body if isinstance(n, ast.Return)]
-        ok = ok and len(fetch) == 1 and len(inc) == 1 and len(ret) == 1 and fetch[0].lineno < inc[0].lineno < ret[0].lineno and norm(ret[0].value) == norm(fetch[0].targets[0])
-        rest = [n for n in nx.node.body if n is not conds[0] and not (isinstance(n, ast.Expr) and isinstance(n.value, ast.Constant))]
-        ok = ok and len(rest) == 1 and isinstance(rest[0], ast.Raise) and 'StopIteration' in norm(rest[0])
-    R.ob('C18.BATCH', nx.qualname, 'while step < len: yield batch[step]; step += 1; else StopIteration', ok, '__next__ must yield batches 0..len-1 consecutively and then stop', nx.loc)
+    if len(cur) != 1:
+        raise Incomplete('cursor attribute (initialised to 0) not identified: %s' % cur)
+    STEP = A(cur[0])
+    for more in (True, False):
+        def compare_hook(pe, op, a, b, more=more):
+            nm = type(op).__name__
+            if isinstance(a, P) and isinstance(b, P) and a == STEP and b == LEN:
+                return {'Lt': more, 'GtE': not more, 'LtE': None, 'Gt': None, 'Eq': not more if False else None, 'NotEq': None}.get(nm) if nm in ('Lt', 'GtE') else NotImplemented
+            if isinstance(a, P) and isinstance(b, P) and a == LEN and b == STEP:
+                return {'Gt': more, 'LtE': not more}.get(nm, NotImplemented)
+            return NotImplemented
+        on = PE(model, atoms={tr: None}, sub_hook=sub_hook, compare_hook=compare_hook, atoms_not_none=True).paths(nx, {})
+        if more:
+            ok = len(on) == 1 and on[0].kind == 'return' and isinstance(on[0].value, (tuple, list)) and len(on[0].value) == 2 and all(isinstance(v, Sub) and slice_ok(v.idx, STEP) for v in on[0].value) \
+                and [v.src for v in on[0].value] == [xs, ys]
+            sts = [(k, v) for o in on for k, v, _ in o.stores]
+            ok = ok and len(sts) == 1 and sts[0][0] == cur[0] and isinstance(sts[0][1], P) and sts[0][1] == STEP + 1
+            R.ob('C18.BATCH', nx.qualname, 'step < len: returns %s, stores %s' % ([_show_parts(o.value) for o in on], [(k, _show(v)) for k, v in sts]), ok,
+                 '__next__ must return batch number `step` (before the increment) and advance the cursor by exactly one', nx.loc)
+        else:
+            ok = len(on) == 1 and on[0].kind == 'raise' and 'StopIteration' in str(on[0].value) and not on[0].stores
+            R.ob('C18.BATCH', nx.qualname, 'step >= len: %s' % [(o.kind, o.value) for o in on], ok, 'after the last full batch __next__ must raise StopIteration without touching the cursor', nx.loc)
     it = c.methods['__iter__']
-    st = [n for n in it.node.body if not (isinstance(n, ast.Expr) and isinstance(n.value, ast.Constant))]
-    ok = len(st) == 2 and isinstance(st[0], ast.Assign) and norm(st[0].targets[0]) == 'self.step' and norm(st[0].value) == '0' and isinstance(st[1], ast.Return) and norm(st[1].value) == 'self'
-    gen = any(isinstance(n, (ast.Yield, ast.YieldFrom)) for n in ast.walk(it.node))
-    R.ob('C18.BATCH', it.qualname, ' ; '.join(norm(s) for s in st), ok or gen, 'iteration must restart from the first batch', it.loc)
-    init_step = [n for n in body_walk(init.node) if isinstance(n, ast.Assign) and norm(n.targets[0]) == 'self.step' and norm(n.value) == '0']
-    R.ob('C18.BATCH', init.qualname, 'self.step = 0', bool(init_step) or gen, 'cursor starts at 0', init.loc)
-    # OPTIONAL-CALL
-    defaults = init.defaults()
-    optional = [p for p, d in defaults.items() if isinstance(d, ast.Constant) and d.value is None]
-    attr_of = {}
-    for n in body_walk(init.node):
-        if isinstance(n, ast.Assign) and isinstance(n.targets[0], ast.Attribute) and isinstance(n.value, ast.Name) and n.value.id in optional:
-            attr_of[norm(n.targets[0])] = n.value.id
-    n_ob = 0
-    for m in c.methods.values():
-        mcfg = CFG(m.node)
-        for call in [x for x in ast.walk(m.node) if isinstance(x, ast.Call) and norm(x.func) in attr_of]:
-            st = next((s for s in mcfg.all_stmts() if not isinstance(s, (ast.If, ast.For, ast.While, ast.With, ast.Try)) and any(z is call for z in ast.walk(s))), None)
-            a = norm(call.func)
-            fs = {(t, p) for t, p, _ in facts_at(mcfg, st)} if st is not None else set()
-            ok = (a + ' is None', False) in fs or (a + ' is not None', True) in fs or (a, True) in fs
-            R.ob('C18.OPTIONAL-CALL', m.qualname, norm(call)[:80], ok, '%s defaults to None and is called without a presence test (TypeError for the default constructor)' % a, '%s:%d' % (m.mod.relpath, call.lineno))
-            n_ob += 1
-            # on the None path the batch is returned unchanged
-            if ok:
-                rets = [r for r in body_walk(m.node) if isinstance(r, ast.Return) and ((a + ' is None', True) in {(t, p) for t, p, _ in facts_at(mcfg, r)} or (a + ' is not None', False) in {(t, p) for t, p, _ in facts_at(mcfg, r)})]
-                okr = len(rets) == 1 and isinstance(rets[0].value, ast.Tuple) and [norm(e) for e in rets[0].value.elts] == [norm(x) for x in call.args[1:]]
-                R.ob('C18.OPTIONAL-CALL', m.qualname, 'None path returns %s' % (norm(rets[0].value) if rets else None), okr, 'without a transform the batch must be returned unchanged (X_batch, y_batch)', m.loc)
-    if n_ob == 0:
-        R.note('no call of an optional attribute found')
+    gen = any(isinstance(n_, (ast.Yield, ast.YieldFrom)) for n_ in ast.walk(it.node))
+    if gen:
+        R.ob('C18.BATCH', it.qualname, 'generator __iter__', True, '', it.loc)
+    else:
+        oi = PE(model).paths(it, {})
+        sts = [(k, v) for o in oi for k, v, _ in o.stores]
+        ok = len(oi) == 1 and oi[0].kind == 'return' and _atomname(oi[0].value) == it.pos_params[0] and sts == [(cur[0], 0)]
+        R.ob('C18.BATCH', it.qualname, 'stores %s, returns %s' % (sts, [_show(o.value) for o in oi]), ok, 'iteration must restart from the first batch and return the loader itself', it.loc)
 
 
+# ------------------------------------------------------------------------------------------------ one_hot_encode
 def check_onehot(model, R):
     f = model.func(DMOD + '.one_hot_encode')
     y = f.pos_params[0]
-    uq = [n for n in body_walk(f.node) if isinstance(n, ast.Assign) and 'np.unique(%s)' % y in norm(n.value)]
-    ok = len(uq) == 1 and norm(uq[0].value) in ('list(np.unique(%s))' % y, 'np.unique(%s).tolist()' % y)
-    R.ob('C18.ONEHOT', f.qualname, norm(uq[0]) if uq else 'no unique', ok, 'the label order must be the sorted distinct labels of y', f.loc)
-    if not ok:
-        return
-    u = norm(uq[0].targets[0])
-    loops = [n for n in body_walk(f.node) if isinstance(n, ast.For) and norm(n.iter) == y]
-    ok = len(loops) == 1
-    if ok:
-        lp = loops[0]
-        lab = norm(lp.target)
-        rows = [n for n in lp.body if isinstance(n, ast.Assign) and norm(n.value) in ('[0] * len(%s)' % u, '[0 for _ in %s]' % u)]
-        sets = [n for n in lp.body if isinstance(n, ast.Assign) and isinstance(n.targets[0], ast.Subscript) and norm(n.targets[0].slice) == '%s.index(%s)' % (u, lab) and norm(n.value) == '1']
-        app = [n for n in lp.body if isinstance(n, ast.Expr) and isinstance(n.value, ast.Call) and isinstance(n.value.func, ast.Attribute) and n.value.func.attr == 'append']
-        ok = len(rows) == 1 and len(sets) == 1 and len(app) == 1 and norm(sets[0].targets[0].value) == norm(rows[0].targets[0]) == norm(app[0].value.args[0]) and len(lp.body) == 3
-    R.ob('C18.ONEHOT', f.qualname, 'row = [0]*len(uniques); row[uniques.index(label)] = 1', ok, 'each label maps to the unit vector at its position among the sorted distinct labels', f.loc)
-    rets = [n for n in body_walk(f.node) if isinstance(n, ast.Return)]
-    R.ob('C18.ONEHOT', f.qualname, norm(rets[0]) if rets else 'no return', len(rets) == 1 and 'np.array(' in norm(rets[0].value), 'result is the array of rows in the order of y', f.loc)
+    classes = [A('c0'), A('c1'), A('c2')]
+    results = []
+    uniq_args = []
+    for j, lab in enumerate(classes):
+        def call_hook(pe, name, e, args, kw, env, func, depth):
+            if name == 'numpy.unique' and args:
+                uniq_args.append((args, kw))
+                return list(classes)
+            if isinstance(e.func, ast.Attribute) and e.func.attr == 'tolist':
+                v = pe.expr(e.func.value, env, func, depth)
+                if isinstance(v, list):
+                    return v
+            if name in ('sorted', 'builtins.sorted') and args and isinstance(args[0], list):
+                return args[0]
+            return NotImplemented
+
+        def loop_hook(pe, s, env, lab=lab):
+            itv = pe.expr(s.iter, env, f, 0)
+            if _atomname(itv) == y and isinstance(s.target, ast.Name):
+                env[s.target.id] = lab
+                return True
+            return False
+
+        def comp_hook(pe, e, it, env, func, depth, lab=lab):
+            if _atomname(it) == y and len(e.generators) == 1 and not e.generators[0].ifs:
+                env2 = dict(env)
+                pe.assign(e.generators[0].target, lab, env2, func, depth, e)
+                return [pe.expr(e.elt, env2, func, depth)]
+            return NotImplemented
+        outs = PE(model, call_hook=call_hook, loop_hook=loop_hook, comp_hook=comp_hook).paths(f, {})
+        results.append((j, outs))
+    ok_u = bool(uniq_args) and all(len(a) == 1 and _atomname(a[0]) == y and not [k for k in kw if k != 'axis'] for a, kw in uniq_args)
+    R.ob('C18.ONEHOT', f.qualname, 'label order = np.unique(%s)' % y, ok_u, 'the class order must be the sorted distinct labels of y', f.loc)
+    bad = []
+    for j, outs in results:
+        want = [[1 if i == j else 0 for i in range(3)]]
+        if not (len(outs) == 1 and outs[0].kind == 'return' and _rows(outs[0].value) == want):
+            bad.append((j, [(o.kind, _show_parts(o.value)) for o in outs]))
+    R.ob('C18.ONEHOT', f.qualname, 'a label equal to class j of 3 yields the unit row e_j (j = 0, 1, 2)', not bad, 'each label maps to the unit vector at its position among the sorted distinct labels, row length = number of classes: %s' % bad[:2], f.loc)
+    R.ob('C18.ONEHOT', f.qualname, 'one row per label of y, in order', not bad and all(len(_rows(o.value) or []) == 1 for _, outs in results for o in outs), 'result is the array of rows in the order of y', f.loc)
+
+
+def _rows(v):
+    if isinstance(v, (list, tuple)) and all(isinstance(r, (list, tuple)) for r in v):
+        out = []
+        for r in v:
+            row = []
+            for x in r:
+                if isinstance(x, P) and x.is_const():
+                    x = x.const_value()
+                row.append(int(x) if isinstance(x, (int,)) or (hasattr(x, 'denominator') and x.denominator == 1) else x)
+            out.append(row)
+        return out
+    return None
